@@ -437,9 +437,9 @@ def default_conf(a=IP_A, b=IP_B, **kw):
     sa2, sb2 = kw.get('subnets_b', (sa, sb))
     port = kw.get('port', 23)
     ca = {'alice': conn('a', a, b, 'alice@openikev2', kw.get('psk_a', 'testing'), 'bob@openikev2', kw.get('psk_b', 'testing2'),
-                        1, 0, port, sa, sb)}
+                        kw.get('index_a', 1), 0, port, sa, sb)}
     cb = {'bob': conn('b', b, a, 'bob@openikev2', kw.get('psk_b_own', kw.get('psk_b', 'testing2')), 'alice@openikev2',
-                      kw.get('psk_a_seen_by_b', kw.get('psk_a', 'testing')), 2, kw.get('port_b', port), 0, sb2, sa2)}
+                      kw.get('psk_a_seen_by_b', kw.get('psk_a', 'testing')), kw.get('index_b', 2), kw.get('port_b', port), 0, sb2, sa2)}
     return ca, cb
 
 
